@@ -50,6 +50,43 @@ template <class SM> inline void set_capacity(SM& m, int n) {
     defq_cap(m.m_deferred_events_queue, n, 0);
 }
 
+// ---- actual content and order of the library's queues (back / back11): the queued boost::function objects
+// wrap bind(pf, this, event, source); the event copy and the bound machine pointer are read out of the bind object
+template <class SM, class E, class Fn> inline bool peek_bound(const Fn& f, int& eid, int& serial, const void*& bound) {
+    using boost::msm::back::execute_return; using boost::msm::back::EventSource;
+    {
+        typedef execute_return (SM::*PF)(E const&, EventSource);
+        typedef decltype(boost::bind(PF(), (SM*)nullptr, std::declval<E>(), EventSource())) B;
+        if (const B* b = f.template target<B>()) { eid = E::eid; serial = b->l_.a2_.get().serial; bound = b->l_.a1_.get(); return true; }
+    }
+    {
+        typedef execute_return (SM::*PF)(E&, EventSource);
+        typedef decltype(boost::bind(PF(), (SM*)nullptr, std::declval<E>(), EventSource())) B;
+        if (const B* b = f.template target<B>()) { eid = E::eid; serial = b->l_.a2_.get().serial; bound = b->l_.a1_.get(); return true; }
+    }
+    return false;
+}
+struct QItem { int eid; int serial; bool foreign; };
+template <class SM, class E> inline void scan_queues(SM& m, std::vector<QItem>& mq, std::vector<QItem>& dq, std::vector<bool>& mq_done, std::vector<bool>& dq_done, long) {
+    size_t i = 0;
+    for (auto it = m.m_events_queue.m_events_queue.begin(); it != m.m_events_queue.m_events_queue.end(); ++it, ++i) {
+        if (mq_done[i]) continue;
+        int eid, ser; const void* b;
+        if (peek_bound<SM, E>(*it, eid, ser, b)) { mq[i] = QItem{eid, ser, b != (const void*)&m}; mq_done[i] = true; }
+    }
+}
+template <class SM, class E, class H> inline auto scan_defq(SM& m, H& h, std::vector<QItem>& dq, std::vector<bool>& dq_done, int) -> decltype(h.m_cur_seq, void()) {
+    size_t i = 0;
+    for (auto it = h.m_deferred_events_queue.begin(); it != h.m_deferred_events_queue.end(); ++it, ++i) {
+        if (dq_done[i]) continue;
+        int eid, ser; const void* b;
+        if (peek_bound<SM, E>(it->first, eid, ser, b)) { dq[i] = QItem{eid, ser, b != (const void*)&m}; dq_done[i] = true; }
+    }
+}
+template <class SM, class E, class H> inline void scan_defq(SM&, H&, std::vector<QItem>&, std::vector<bool>&, long) {}
+template <class H> inline auto defq_size(H& h, int) -> decltype(h.m_cur_seq, size_t()) { return h.m_deferred_events_queue.size(); }
+template <class H> inline size_t defq_size(H&, long) { return 0; }
+
 template <class SM> inline std::string visit_ids(SM& m) {
     Visitor v;
     m.visit_current_states(boost::ref(v));
@@ -96,6 +133,20 @@ template <class SM, class E> inline void collect_marked(SM& m, std::set<int>& ou
             auto& d = static_cast<deferred_event<E>&>(occ);
             if (occ.marked_for_deletion()) out.insert(evinfo<E>::serial(d.m_event));
         }
+    }
+}
+struct QItem { int eid; int serial; bool foreign; };
+template <class SM, class E> inline void scan_pool(SM& m, std::vector<QItem>& q, std::vector<bool>& done) {
+    using namespace boost::msm::backmp11::detail;
+    size_t i = 0;
+    for (auto& pe : m.get_event_pool().events) {
+        event_occurrence& occ = *pe;
+        if (!done[i] && occ.m_process_fn == &deferred_event<E>::template try_process<SM>) {
+            auto& d = static_cast<deferred_event<E>&>(occ);
+            q[i] = QItem{occ.marked_for_deletion() ? -2 : evinfo<E>::eid(d.m_event) % 1000, evinfo<E>::serial(d.m_event), false};
+            done[i] = true;
+        }
+        ++i;
     }
 }
 struct Mp11Visitor {
